@@ -51,6 +51,7 @@ def counter_case(draw):
         st.just(["add"]), st.just(["subtract"]), st.just(["jump"]),
         st.tuples(st.just("advance"), st.sampled_from(ADV)).map(list),
         st.tuples(st.just("advance"), st.sampled_from(ADV)).map(list),
+        st.tuples(st.just("mode_restart"), st.sampled_from([0, 10, 60, 300])).map(list),
     )
     return {"cfg": cfg, "ops": draw(st.lists(op, min_size=3, max_size=40))}
 
@@ -74,6 +75,7 @@ def steps_case(draw):
         st.tuples(st.just("step"), st.sampled_from(evs)).map(list),
         st.just(["enable"]), st.just(["disable"]), st.just(["reset"]), st.just(["restart"]),
         st.tuples(st.just("advance"), st.sampled_from(ADV)).map(list),
+        st.tuples(st.just("mode_restart"), st.sampled_from([0, 10, 60, 300])).map(list),
     )
     return {"cfg": cfg, "ops": draw(st.lists(op, min_size=3, max_size=40))}
 
@@ -393,7 +395,26 @@ def check(case):
             got.clear()
             for s in states:
                 s.out = []
-            if op[0] == "advance":
+            if op[0] == "mode_restart":
+                if not cfg["in_mode"]:
+                    continue
+                # the owning mode stops and starts again: a block of a non-game mode starts afresh (value, enabled
+                # flag, no hit window open, timeout re-armed from now)
+                m.events.post("stop_m1")
+                rig.advance(op[1] / 1000.0)
+                T += op[1]
+                m.events.post("start_m1")
+                rig.run_ready()
+                fresh = S(cfg)
+                start_enabled = cfg["start_enabled"] if cfg["start_enabled"] is not None else not cfg["enable_events"]
+                if start_enabled:
+                    fresh.enable(T)
+                fresh.flags = set().union(*[s.flags for s in states]) | {"mode-restart"}
+                fresh.out = []
+                states = [fresh]
+                got.clear()
+                dev = getattr(m, section)["b"]
+            elif op[0] == "advance":
                 rig.advance(op[1] / 1000.0)
                 T1 = T + op[1]
                 states = advance_states(states, T, T1)
